@@ -116,7 +116,9 @@ func main() {
 		seg := 0
 		for i := 0; i < *nseg; i++ {
 			cfg := drv.SmallCfg{Seed: *seed*1000 + i, Ops: *steps, Crash: *crashMode, Loss: *loss, Avoid: avoidSet(*avoid), DiskSz: *disk}
-			if *sconc > 1 {
+			if cmd == "kvs" && *sconc == -1 { // directed disk-gate schedules
+				seg = drv.RunKvsGates(cfg.Seed, t, seg)
+			} else if *sconc > 1 {
 				cc := drv.SmallConcCfg{Seed: cfg.Seed, Clients: *sconc, OpsPer: *steps, Crash: *crashMode, Loss: *loss, DiskSz: *disk}
 				if cmd == "simple" {
 					seg = drv.RunSimpleConc(cc, t, seg)
